@@ -58,12 +58,18 @@ def r14_1_scalar_table(ctx, rid='R14.1'):
         a, _ = tag_equalities(g.guards(ret), 'self.yaml_node.tag', g.copies)
         if a and len(a) == 1:
             arms[ast.literal_eval(next(iter(a)))] = ret
-    conv = {want['str']: lambda v: v.startswith('str(') or v == 'self.yaml_node.value', want['int']: lambda v: v.startswith('int('),
-            want['float']: lambda v: v.startswith('float('), want['bool']: lambda v: ' in ' in v or '==' in v,
+    def _uncast(v):
+        while v.startswith('cast(') and ', ' in v:
+            v = v.split(', ', 1)[1][:-1]
+        return v
+    conv = {want['str']: lambda v: v in ('str(self.yaml_node.value)', 'self.yaml_node.value'),
+            want['int']: lambda v: v == 'int(self.yaml_node.value)' or v.endswith('.construct_yaml_int(self.yaml_node)'),
+            want['float']: lambda v: v == 'float(self.yaml_node.value)' or v.endswith('.construct_yaml_float(self.yaml_node)'),
+            want['bool']: lambda v: (' in ' in v or '==' in v) and 'self.yaml_node.value' in v,
             want['None']: lambda v: v == 'None'}
     for typ, tag in want.items():
         ret = arms.get(tag)
-        ok = ret is not None and ret.value is not None and conv[tag](norm(ret.value)) and 'self.yaml_node.value' in (norm(ret.value) + ('self.yaml_node.value' if tag == want['None'] else ''))
+        ok = ret is not None and ret.value is not None and conv[tag](_uncast(norm(ret.value)))
         r.check(ok, 'get_value: tag %s -> %s' % (tag[len(CORE):], norm(ret.value) if ret is not None and ret.value is not None else None),
                 g.key('arm:%s' % tag[len(CORE):]), g.loc(ret) if ret is not None else g.loc(),
                 'get_value has no (correct) arm for tag %s (%s): is_scalar(%s) is True for such a node but get_value does not '
@@ -105,8 +111,12 @@ def r14_1_scalar_table(ctx, rid='R14.1'):
     # the text written for each type
     for typ, (tag, n) in made.items():
         txt = norm(s.copies.expand(n.args[1])) if len(n.args) > 1 else None
-        exp = {'str': val, 'int': 'str(%s)' % val, 'float': 'str(%s)' % val, 'None': "''", 'bool': "'true' if %s else 'false'" % val}[typ]
+        exp = {'str': val, 'int': 'str(%s)' % val, 'float': '<SafeRepresenter>.represent_float(%s).value' % val, 'None': "''",
+               'bool': "'true' if %s else 'false'" % val}[typ]
         ok = txt == exp
+        if typ == 'float':
+            # str(1e20) == '1e+20' and str(inf) == 'inf' are not YAML floats: PyYAML then writes an explicit !!float tag
+            ok = len(n.args) > 1 and _pyyaml_float_text(s, s.copies.expand(n.args[1]), val)
         if typ == 'bool' and not ok:
             # loop/branch-local assignment: look at value_str definitions
             rhs = [norm(x) for x in assigned_from(s, norm(n.args[1]))] if isinstance(n.args[1], ast.Name) else []
@@ -151,6 +161,13 @@ def r14_1_scalar_table(ctx, rid='R14.1'):
     btxt = [norm(x) for n in news if len(n.args) > 1 for x in S._flow_sources(v, n.args[1])]
     r.check("'true' if %s else 'false'" % vp in btxt and 'str(%s)' % vp in btxt, 'set_value text: true/false for bool, str(value) otherwise',
             v.key('text'), v.loc(), 'set_value writes %s' % btxt)
+    fl = [d for n in news if len(n.args) > 1 and isinstance(n.args[1], ast.Name) for d in reaching_defs(v, n, n.args[1].id)
+          if _pyyaml_float_text(v, d.value, vp)]
+    r.check(bool(fl) and all(any(isinstance_atom(g) and isinstance_atom(g)[0] == vp and p and isinstance_atom(g)[1] <= {'float'}
+                                 for g, p in v.guards(d)) for d in fl),
+            'set_value text: a float is spelt by PyYAML\'s represent_float', v.key('text:float'), v.loc(),
+            'set_value writes str(value) for a float: 1e+20, inf and nan are not YAML floats, and the dump then carries an explicit '
+            '!!float tag')
     bn = [n for n in v.walk() if isinstance(n, ast.Assign) and norm(n.value) == "'true' if %s else 'false'" % vp]
     r.check(bool(bn) and all(v.has_guard(n, 'isinstance(%s, bool)' % vp, True, expand=False) for n in bn), 'the bool text is chosen '
             'under isinstance(value, bool)', v.key('bool-guard'), v.loc(), 'set_value\'s bool spelling is not selected by isinstance(value, bool)')
@@ -531,19 +548,60 @@ def r14_6_get_attribute_guarded(ctx, rid='R14.6', transforms=False):
 YAML_INT_FLOAT_NOTE = 'PyYAML accepts 0x1F, 0b1, 0o17/017, 1_000, 1:30 as int and .inf/.nan as float; int()/float() do not'
 
 
+def _pyyaml_float_text(f: Fn, e: ast.AST, val: str) -> bool:
+    """`e` is <SafeRepresenter instance>.represent_float(<val>).value"""
+    if not (isinstance(e, ast.Attribute) and e.attr == 'value' and isinstance(e.value, ast.Call) and isinstance(e.value.func, ast.Attribute)
+            and e.value.func.attr == 'represent_float' and len(e.value.args) == 1 and norm(e.value.args[0]) == val):
+        return False
+    recv = e.value.func.value
+    src = f.fi.module.constants.get(recv.id) if isinstance(recv, ast.Name) else recv
+    return src is not None and norm(src).endswith('SafeRepresenter()')
+
+
+def _pyyaml_scalar_call(P: Program, f: Fn, e: ast.AST, kind: str, node_text: str) -> bool:
+    """`e` (through typing.cast) is <SafeConstructor instance>.construct_yaml_<kind>(<node>)"""
+    while isinstance(e, ast.Call) and isinstance(e.func, ast.Name) and e.func.id in ('cast', 'bool') and e.args:
+        e = e.args[-1]
+    if not (isinstance(e, ast.Call) and isinstance(e.func, ast.Attribute) and e.func.attr == 'construct_yaml_%s' % kind
+            and len(e.args) == 1 and norm(e.args[0]) == node_text):
+        return False
+    recv = e.func.value
+    src = f.fi.module.constants.get(recv.id) if isinstance(recv, ast.Name) else recv
+    return src is not None and norm(src).endswith('SafeConstructor()')
+
+
 def r14_9_get_value_text(ctx, rid='R14.9', dump_side=True):
     P = ctx.P
-    r = ctx.rule(rid, 'get_value() returns what a load would construct: numeric node text is not converted with bare int()/float()',
+    r = ctx.rule(rid, 'get_value() returns what a load would construct: the text of int and float nodes is converted by PyYAML\'s own '
+                      'construct_yaml_int / construct_yaml_float, not by Python\'s int()/float() (YAML spells 0x1F, 1:30, 017, .inf)',
                  floor=2)
     g = fn(P, NODE + 'get_value')
-    for n, kind in _esc_sites(g):
-        r.fail(g.key('bare-%s-on-node-text' % kind), g.loc(n), 'get_value converts node text with %s(): %s' % (kind, YAML_INT_FLOAT_NOTE))
-    m = fn(P, NODE + 'remove_attributes_with_default_values.matches')
-    for n, kind in (_esc_sites(m) if dump_side else []):
-        if m.fi.params[1] in {x.id for x in ast.walk(n.args[0]) if isinstance(x, ast.Name)} or kind != 'float':
-            continue
-        r.fail(m.key('bare-%s-on-node-text' % kind), m.loc(n), 'matches() converts node text with %s(): a float attribute holding '
-               'inf/nan is represented as .inf/.nan and float(".inf") raises ValueError while sweetening' % kind)
+    for kind in ('int', 'float'):
+        rets = [x for x in g.returns() if tag_equalities(g.guards(x), 'self.yaml_node.tag', g.copies)[0] == {repr(CORE + kind)}]
+        for x in rets:
+            r.check(x.value is not None and _pyyaml_scalar_call(P, g, x.value, kind, 'self.yaml_node'),
+                    'get_value: %s nodes are read by SafeConstructor.construct_yaml_%s' % (kind, kind), g.key('bare-%s-on-node-text' % kind),
+                    g.loc(x), 'get_value converts the text of a %s node with %s: %s' % (kind, norm(x.value)[:60] if x.value is not None else None,
+                                                                                  YAML_INT_FLOAT_NOTE))
+        if not rets:
+            r.fail(g.key('bare-%s-on-node-text' % kind), g.loc(), 'get_value has no arm for %s nodes' % kind)
+    if dump_side:
+        m = fn(P, NODE + 'remove_attributes_with_default_values.matches')
+        vn = m.fi.params[0]
+        for kind in ('int', 'float'):
+            rets = [x for x in m.returns() if tag_equalities(m.guards(x), '%s.tag' % vn, m.copies)[0] == {repr(CORE + kind)}
+                    and not (isinstance(x.value, ast.Constant))]
+            for x in rets:
+                v = x.value
+                while isinstance(v, ast.Call) and isinstance(v.func, ast.Name) and v.func.id == 'bool' and v.args:
+                    v = v.args[0]
+                conv_ = [c for c in ast.walk(v) if isinstance(c, ast.Call) and (
+                    (isinstance(c.func, ast.Name) and c.func.id in ('int', 'float')) or
+                    (isinstance(c.func, ast.Attribute) and c.func.attr.startswith('construct_yaml_')))] if v is not None else []
+                r.check(bool(conv_) and all(_pyyaml_scalar_call(P, m, c, kind, vn) for c in conv_),
+                        'matches(): %s nodes are read by SafeConstructor.construct_yaml_%s' % (kind, kind), m.key('bare-%s-on-node-text' % kind),
+                        m.loc(x), 'matches() converts the text of a %s node with %s: a float attribute holding inf/nan is represented as '
+                        '.inf/.nan and float(".inf") raises ValueError while sweetening; 017 is octal' % (kind, norm(v)[:60] if v is not None else None))
     r.done()
 
 
